@@ -130,6 +130,15 @@ pub fn generate(rng: &mut Rng, tier: Tier, emit: &mut dyn FnMut(String)) {
         let msb = *rng.pick(&[0u32, 12, 63, 64, 255, 256]);
         emit(format!("shardinfo {} {} {}", shard, n, msb));
     }
+    // the whole `try_from`: every combination of {absent, empty list, not a number, boundary numbers} per entry
+    let words: [&str; 12] = ["-", "e", "x", "0", "1", "3", "255", "256", "65535", "65536", "4294967296", "12"];
+    for a in words {
+        for b in words {
+            for c in words {
+                emit(format!("shardopts {} {} {}", a, b, c));
+            }
+        }
+    }
 }
 
 fn opt(p: Option<u16>) -> String {
@@ -250,6 +259,39 @@ pub fn run(case: &str, ctx: &mut Ctx) -> String {
                     format!("ok {} {} {}", s, n, m)
                 }
                 Err(e) => format!("err {}", e),
+            }
+        }
+        "shardopts" => {
+            // the whole `ShardInfo::try_from`: `-` = key absent, `e` = empty value list, else the first value
+            let mut options: HashMap<String, Vec<String>> = HashMap::new();
+            for (key, word) in ["SCYLLA_SHARD", "SCYLLA_NR_SHARDS", "SCYLLA_SHARDING_IGNORE_MSB"].iter().zip(&w[1..4]) {
+                match *word {
+                    "-" => {}
+                    "e" => {
+                        options.insert((*key).into(), vec![]);
+                    }
+                    v => {
+                        // a second value must be ignored: only the first one counts
+                        options.insert((*key).into(), vec![v.into(), "7".into()]);
+                    }
+                }
+            }
+            match hooks::shard_info_from_options(&options) {
+                Ok((s, n, m)) => {
+                    if s >= n || n == 0 {
+                        ctx.fail(format!("accepted shard info shard={} nr_shards={}", s, n));
+                    }
+                    if w[1..4].iter().any(|x| x.parse::<u32>().is_err()) {
+                        ctx.fail(format!("accepted shard info although an entry is missing or not a number: {:?}", &w[1..4]));
+                    }
+                    format!("ok {} {} {}", s, n, m)
+                }
+                Err(e) => {
+                    if e == "noShardInfo" && w[1..4].iter().any(|x| *x != "-") {
+                        ctx.fail("reported `no sharding info` (a Cassandra node) although an entry is present".to_owned());
+                    }
+                    format!("err {}", e)
+                }
             }
         }
         _ => "bad-case".to_owned(),
